@@ -399,7 +399,11 @@ sh!(s2_from_utf8, 14, s2_from_utf8_body());
 pub fn s1_pushw<const N: usize, const W: usize, const SPARE: usize>() {
     let mut back = Backing::<304>([0u8; 304]);
     unsafe {
-        let c = small_chunk::<1>(back.0.as_mut_ptr(), 256, 200);
+        // the chunk has room for exactly the buffer: a push that reallocates although the capacity was
+        // reserved cannot be served in place and reaches the (forbidden) global allocator stub, which
+        // reports it and ends the path (exploring the in-chunk reallocation with its symbolic copies
+        // took > 10 min under seed C18-D)
+        let c = small_chunk::<1>(back.0.as_mut_ptr(), 256, N + W + SPARE);
         let bump = mk_bump::<1>(c.footer, None);
         let raw: [u8; 4] = kani::any();
         let n: usize = N;
@@ -434,7 +438,9 @@ pub fn s1_pushw<const N: usize, const W: usize, const SPARE: usize>() {
         };
         let mut cb = [0u8; 4];
         let cl = ch.encode_utf8(&mut cb).len();
+        FORBID_ALLOC = true;
         s.push(ch);
+        FORBID_ALLOC = false;
         vassert!(s.len() == N + W, "NEVER: [C14] push: length differs from the reference model");
         let q: usize = kani::any();
         if q < N {
@@ -448,7 +454,7 @@ pub fn s1_pushw<const N: usize, const W: usize, const SPARE: usize>() {
         kani::cover!(true, "REACH: end of harness");
     }
 }
-sh!(s1_pushw_n2_w1, 14, s1_pushw::<2, 1, 0>());
+// (W = 1 with a symbolic ASCII char: `len_utf8()` stays symbolic and both arms are explored - > 20 min; ASCII push is Vec::push, family V1)
 sh!(s1_pushw_n2_w2, 14, s1_pushw::<2, 2, 0>());
 sh!(s1_pushw_n3_w3, 14, s1_pushw::<3, 3, 0>());
 sh!(s1_pushw_n4_w4, 14, s1_pushw::<4, 4, 0>());
